@@ -39,7 +39,7 @@ def gen_market(rng, mid, opts):
     pt = 1_700_000_000_000 + mid * 3_600_000 * (0 if opts.get("same_time") else 1)
     mtype = rng.choice(opts.get("types", ["WIN", "WIN", "PLACE", "OTHER_PLACE", "EACH_WAY"]))
     m = {"id": "1.10000%04d" % mid, "event": "2000%04d" % (mid if not opts.get("group") else 0), "group": bool(opts.get("group")),
-         "type": mtype, "bsp": rng.random() < 0.85, "persist": rng.random() < 0.85, "winners": 1, "updates": []}
+         "type": mtype, "bsp": rng.random() < opts.get("p_bsp", 0.85), "persist": rng.random() < 0.85, "winners": 1, "updates": []}
     if mtype == "EACH_WAY":
         m["ew_divisor"] = rng.choice([4.0, 5.0])
     base = [rng.randrange(3, len(TICKS) - 6) for _ in range(nrun)]
@@ -100,6 +100,24 @@ def gen_market(rng, mid, opts):
         runners = [{"id": i + 1, "status": "REMOVED" if i in removed else ("WINNER" if i == min(k for k in range(nrun) if k not in removed) else "LOSER"),
                     "adj": removed.get(i), "atb": [], "atl": [], "trd": []} for i in range(nrun)]
         m["updates"].append({"pt": pt, "status": "CLOSED", "version": version + 1, "inplay": inplay, "bsp_rec": bsp_rec, "delay": delay, "runners": runners})
+        if rng.random() < opts.get("p_reopen", 0.0):
+            # the exchange takes the result back: the same market is OPEN again (removed runners stay removed), then closes again
+            version += 2
+            for _ in range(rng.randrange(1, 4)):
+                pt += rng.choice(steps)
+                runners = []
+                for i in range(nrun):
+                    if i in removed:
+                        runners.append({"id": i + 1, "status": "REMOVED", "adj": removed[i], "atb": [], "atl": [], "trd": sorted([[p, s] for p, s in cum[i].items()])})
+                        continue
+                    atb, atl = gen_ladders(rng, base[i], even, rng.randrange(1, 4))
+                    runners.append({"id": i + 1, "status": "ACTIVE", "adj": adj0.get(i + 1), "atb": atb, "atl": atl,
+                                    "trd": sorted([[p, s] for p, s in cum[i].items()]), "sp": sps.get(i)})
+                m["updates"].append({"pt": pt, "status": "OPEN", "version": version, "inplay": inplay, "bsp_rec": bsp_rec, "delay": delay, "runners": runners})
+            pt += rng.choice(steps)
+            runners = [{"id": i + 1, "status": "REMOVED" if i in removed else ("WINNER" if i == min(k for k in range(nrun) if k not in removed) else "LOSER"),
+                        "adj": removed.get(i), "atb": [], "atl": [], "trd": []} for i in range(nrun)]
+            m["updates"].append({"pt": pt, "status": "CLOSED", "version": version + 1, "inplay": inplay, "bsp_rec": bsp_rec, "delay": delay, "runners": runners})
     return m
 
 
@@ -222,7 +240,10 @@ def to_impl(sc):
                 acts.append(["replace", "o%d" % a[1], fprice(a[2]), a[3]])
             else:
                 acts.append(a)
-        out["script"].append({"s": e["s"], "m": e["m"], "u": e["u"], "acts": acts})
+        # the driver counts the books its strategy is given: CLOSED updates are not among them
+        ups = sc["markets"][e["m"]]["updates"]
+        u_seen = sum(1 for k in range(e["u"]) if ups[k]["status"] != "CLOSED")
+        out["script"].append({"s": e["s"], "m": e["m"], "u": u_seen, "acts": acts})
     return out
 
 
